@@ -79,6 +79,7 @@ CHECKS = {
         level_note="Default build (linuxacl tag off). Background users are documented to bypass the rules and are outside the domain; check/open races are outside the quantifier. Invalid rule regexes are outside the domain.",
         tests=[
             dict(name="TestC08Verdict", quick=dict(checks=4000, timeout=600), thorough=dict(checks=40000, shards=8, timeout=3000)),
+            dict(name="TestC08Session", quick=dict(checks=150, shards=4, timeout=600), thorough=dict(checks=3000, shards=6, timeout=3000)),
             dict(name="TestC08E2E", quick=dict(checks=400, timeout=600), thorough=dict(checks=4000, shards=8, timeout=3000)),
         ]),
     "C05": dict(
